@@ -301,6 +301,7 @@ Section Match3.
     set (data := d0 :: data') in *.
     destruct (Z.eqb_spec (Z.of_nat (length data)) 0) as [E|_]; [cbn [data length] in E; lia|].
     rewrite Bytes_gen. cbn [rbind]. change (negb (0 =? 0)) with false. cbv iota zeta.
+    destruct (sizeHint_ok f ltac:(lia)) as [zh Hzh]. rewrite Hzh. cbn [rbind]. clear zh Hzh.
     cbn [to_gen Kernels3.gcs_Filter_filterData Kernels3.gcs_Filter_modulusNP]. fold (to_gen f).
     destruct (HNR (f_data f) Hb) as [Hv Hi].
     pose proof (bits_of_bytes_length (f_data f)) as Hl.
